@@ -71,7 +71,18 @@ def parse_single(defn, raw: bytes, root=None):
 
 def compare_items(libpkt, out: ref.Outcome, info: DocInfo, ctx=None, sig_prefix=()):
     """-> None or (mechanism, message). libpkt: a dict of name -> value (CCSDSPacket or partial_data)"""
-    names = [n for n, _ in out.items]
+    items = out.items
+    if len({n for n, _ in items}) != len(items):
+        # a parameter that occurs twice on one path cannot be represented twice in a dict: the packet keeps the position
+        # of the first occurrence and the value of the last one (documents like this are only met in mission replays;
+        # the generators never produce them)
+        merged = {}
+        for n, v in items:
+            merged[n] = v
+        items = list(merged.items())
+        if ctx is not None:
+            ctx.count("model.duplicate-parameters-collapsed")
+    names = [n for n, _ in items]
     got = list(libpkt.keys())
     if got != names:
         if got[:len(names)] == names:
@@ -84,7 +95,7 @@ def compare_items(libpkt, out: ref.Outcome, info: DocInfo, ctx=None, sig_prefix=
         return (f"items/order/{info.feat.get(names[i], '?')}", f"item {i}: library has {got[i]!r}, model has {names[i]!r}")
     prev_dyn = False
     bitpos = 0
-    for i, (name, val) in enumerate(out.items):
+    for i, (name, val) in enumerate(items):
         why = synth.compare_value(libpkt[name], val)
         if ctx is not None and i >= 7:
             ctx.sig(*sig_prefix, info.feat[name], "afterdyn" if prev_dyn else "static")
